@@ -208,6 +208,35 @@ ALLOWED_AXIOMS = {
 }
 
 
+def _vo_stamp():
+    """newest modification time of any compiled file of the development"""
+    m = 0.0
+    for root, _, files in os.walk(os.path.join(COQ, "theories")):
+        for f in files:
+            if f.endswith(".vo"):
+                m = max(m, os.path.getmtime(os.path.join(root, f)))
+    return m
+
+
+def cached_props_compile(scratch, vfile):
+    """coqc of a Props file with its Print Assumptions output.  The output is cached under
+    build/props keyed by the file's content hash and is reused only while no .vo of the development
+    is newer than the cache entry (any rebuild of a dependency invalidates it)."""
+    cdir = os.path.join(BUILD, "props")
+    os.makedirs(cdir, exist_ok=True)
+    key = hashlib.sha1(open(vfile, "rb").read()).hexdigest()[:16]
+    cf = os.path.join(cdir, os.path.basename(vfile) + "." + key + ".out")
+    if os.path.exists(cf) and os.path.getmtime(cf) >= _vo_stamp():
+        return 0, open(cf).read()
+    rc, out = coqc(scratch, vfile)
+    if rc == 0:
+        for f in os.listdir(cdir):
+            if f.startswith(os.path.basename(vfile) + "."):
+                os.remove(os.path.join(cdir, f))
+        open(cf, "w").write(out)
+    return rc, out
+
+
 def check_props_file(pid, scratch):
     """Re-compile Props/<ID>.v (and Props/<ID>_*.v) against the compiled development, parse
     Print Assumptions."""
@@ -221,7 +250,7 @@ def check_props_file(pid, scratch):
         src = strip_comments(open(vfile).read())
         names = re.findall(r"\b(?:Theorem|Lemma|Corollary)\s+([A-Za-z0-9_']+)", src)
         n_print = len(re.findall(r"Print\s+Assumptions", src))
-        rc, out = coqc(scratch, vfile)
+        rc, out = cached_props_compile(scratch, vfile)
         res["theorems"] += names
         res["n_print"] += n_print
         if rc != 0:
